@@ -483,6 +483,8 @@ pub fn chunk(rng: &mut Rng, g: &GenCtx, me: usize, n: usize, kind: &str) -> Chun
         // types (which assignment types the field must not depend on hash order, C11)
         "table-extend-shared" => format!("{oup}_T.shared_ext{sh} = {}\nlocal {lo}_rse{n} = {oup}_T.shared_ext{sh}\n", lit(rng)),
         "module-extend-shared" => {
+            // requiring one's own module is legal but odd: keep it rare
+            let other = if other == me && !rng.chance(1, 8) { rng.pick(&allowed) } else { other };
             let m = g.modules[other].clone();
             format!("local {lo}_mx{n} = require(\"{m}\")\n{lo}_mx{n}.shared_mode{sh} = {}\nlocal {lo}_rmx{n} = {lo}_mx{n}.shared_mode{sh}\n", lit(rng))
         }
@@ -586,6 +588,55 @@ pub fn gen_workspace(rng: &mut Rng, o: &GenOpts) -> Workspace {
         files.push(GenFile { path: paths[i].clone(), root: roots[i], marker: markers[i].clone(), module: modules[i].clone(), chunks });
     }
     Workspace { files, library, config }
+}
+
+/// Order-sensitive family: modules that `require` each other in a cycle (their analysis order is
+/// not fixed by the dependency graph) and all claim the same field of one shared module table
+/// with different types; a user file reads the field. Plus some ordinary chunks around.
+pub fn gen_cycle_workspace(rng: &mut Rng) -> Workspace {
+    let k = rng.range(2, 4); // files in the cycle
+    let n = k + 2; // + shared module + user
+    let markers: Vec<String> = (0..n).map(|i| format!("F{i}")).collect();
+    let modules: Vec<String> = (0..n).map(|i| if rng.bool() { format!("f{i}") } else { format!("pkg.f{i}") }).collect();
+    let paths: Vec<String> = modules.iter().map(|m| format!("main/{}.lua", m.replace('.', "/"))).collect();
+    let g = GenCtx { markers: markers.clone(), modules: modules.clone(), in_lib: vec![false; n] };
+    let lits = ["1", "\"text\"", "true", "{ a = 1 }", "function() return 1 end", "1.5"];
+    let mut files = Vec::new();
+    // file 0: the shared module
+    let shared_tail = match rng.below(3) {
+        0 => "local Shared = {}\nreturn Shared\n".to_string(),
+        1 => "---@class F0Shared\nlocal Shared = {}\nShared.mode = nil\nreturn Shared\n".to_string(),
+        _ => "local Shared = { mode = nil }\nreturn Shared\n".to_string(),
+    };
+    files.push(GenFile { path: paths[0].clone(), root: 0, marker: markers[0].clone(), module: modules[0].clone(), chunks: vec![Chunk { kind: "module-return".into(), text: shared_tail }] });
+    // files 1..=k: the cycle
+    for i in 1..=k {
+        let next = if i == k { 1 } else { i + 1 };
+        let lo = markers[i].to_lowercase();
+        let mut chunks = Vec::new();
+        if rng.chance(1, 3) {
+            chunks.push(chunk(rng, &g, i, 0, "func-own"));
+        }
+        let text = format!(
+            "local Shared = require(\"{}\")\nlocal {lo}_other = require(\"{}\")\nShared.mode = {}\nShared.from_{lo} = true\nreturn {{ {lo}_val = 1 }}\n",
+            modules[0], modules[next], lits[(i + rng.below(2)) % lits.len()]
+        );
+        chunks.push(Chunk { kind: "require-cycle-claim".into(), text });
+        files.push(GenFile { path: paths[i].clone(), root: 0, marker: markers[i].clone(), module: modules[i].clone(), chunks });
+    }
+    // last file: the user
+    let u = n - 1;
+    let lo = markers[u].to_lowercase();
+    let mut text = format!("local Shared = require(\"{}\")\nlocal {lo}_mode = Shared.mode\n", modules[0]);
+    for i in 1..=k {
+        text.push_str(&format!("local {lo}_f{i} = Shared.from_{}\n", markers[i].to_lowercase()));
+    }
+    files.push(GenFile { path: paths[u].clone(), root: 0, marker: markers[u].clone(), module: modules[u].clone(), chunks: vec![Chunk { kind: "use-shared".into(), text }] });
+    // registration order is part of the case: shuffle it
+    let mut order: Vec<usize> = (0..n).collect();
+    rng.shuffle(&mut order);
+    let files = order.into_iter().map(|i| files[i].clone()).collect();
+    Workspace { files, library: false, config: 0 }
 }
 
 /// An edited version of `chunks` (never equal to the original text).
